@@ -17,6 +17,11 @@ Proof.
   destruct i; reflexivity.
 Qed.
 
+Lemma img_scratch_lemma : forall i w h y x c,
+  im_scratch_once gen_img = true /\
+  evalZ (env_of (fmt_of i) w h y x c) (im_scratch_count gen_img) = Z.of_N (f_ncomp (fmt_of i) * w).
+Proof. intros. apply img_check_scratch. exact img_check_lemma. Qed.
+
 Lemma fmts_check_lemma : fmts_check gen_fmt = true.
 Proof. vm_compute. reflexivity. Qed.
 
